@@ -49,7 +49,7 @@ ASSUMPTIONS = [
     "1e-3): 0.016 for non-growing loops up to 0.46 for e^(>15) growth",
     "scipy RK45, numba, numpy are trusted",
 ]
-FAULT_KINDS = ["ctrl:always", "ctrl:after", "ctrl:window", "ctrl:at_zero",
+FAULT_KINDS = ["caller_threads_interleaved", "ctrl:always", "ctrl:after", "ctrl:window", "ctrl:at_zero",
                "ctrl:at_end", "start_state_out_of_bounds",
                "ctrl:state", "plant:always", "plant:after", "plant:window",
                "plant:state", "plant:diverges_by_itself"]
@@ -77,11 +77,14 @@ def plan(tier: str) -> list:
                 {"name": "fault", "n": 20000, "faults": True},
                 {"name": "bundled", "n": 200, "faults": True, "bundled": True},
                 {"name": "describe", "n": 96, "faults": True,
-                 "describe": True}]
+                 "describe": True},
+                {"name": "threads", "n": 300, "faults": False,
+                 "threads": True}]
     return [{"name": "nofault", "n": 60000, "faults": False},
             {"name": "fault", "n": 400000, "faults": True},
             {"name": "bundled", "n": 3000, "faults": True, "bundled": True},
-            {"name": "describe", "n": 3000, "faults": True, "describe": True}]
+            {"name": "describe", "n": 3000, "faults": True, "describe": True},
+            {"name": "threads", "n": 20000, "faults": False, "threads": True}]
 
 
 def warmup() -> None:
@@ -100,6 +103,24 @@ def generate(rng: random.Random, batch: dict) -> dict:
         return _gen_bundled(rng)
     if batch.get("describe"):
         return _gen_describe(rng, batch)
+    if batch.get("threads"):
+        # two caller threads simulate at the same time (own arrays, own
+        # controller and equation closures); thread i runs leg i
+        doc = generate(rng, {**batch, "threads": False})
+        legs = doc["legs"][:2]
+        while len(legs) < 2:
+            legs.append({"s0": [_rf(rng, -1.0, 1.0)
+                                for _ in range(doc["sd"])], "test": False})
+        legs[0]["test"], legs[1]["test"] = True, rng.random() < 0.5
+        return {**doc, "legs": legs,
+                "test_steps": min(doc["test_steps"], 50),
+                "train_steps": min(doc["train_steps"], 30),
+                "test_time": min(doc["test_time"], 5.0),
+                "train_time": min(doc["train_time"], 5.0),
+                "threads": {"picks": [[[rng.random(), rng.random(),
+                                        rng.random()]
+                                       for _ in range(rng.choice([1, 2, 4, 8]))]
+                                      for _ in range(2)]}}
     sd = rng.choice([1, 2, 2, 3, 4, 6] if "describe" in batch
                     else [1, 2, 2, 3, 4])
     cd = rng.choice([1, 1, 2])
@@ -304,7 +325,93 @@ def _bundled_parts(b: dict):
     return sysobj, ctrl, params
 
 
+def _execute_threads(doc: dict) -> dict:
+    """Each thread's simulation, figure of merit and differentials must be
+    what they are when the thread runs alone."""
+    import warnings
+
+    import numpy as np
+    warnings.simplefilter("ignore")
+    from moptipyapps.dynamic_control.ode import (diff_from_ode, j_from_ode,
+                                                 run_ode, t_from_ode)
+    res = core.new_result()
+    sd, cd = int(doc["sd"]), int(doc["cd"])
+    Al, Bl, Kl = doc["A"], doc["B"], doc["K"]
+    prm, tq = float(doc["p"]), float(doc.get("tq", 0.0))
+    gamma, use = float(doc["gamma"]), int(doc["use_state_dims"])
+    pre = core.Preempt((os.sep + "moptipyapps" + os.sep, ))
+
+    def body_for(leg):
+        def ctrl(state, t, p, out):
+            for i in range(cd):
+                acc = 0.0
+                for j in range(sd):
+                    acc += Kl[i][j] * float(state[j])
+                out[i] = p * acc + tq * t
+
+        def eq(state, t, c, out):
+            for i in range(sd):
+                acc = 0.0
+                for j in range(sd):
+                    acc += Al[i][j] * float(state[j])
+                for j in range(cd):
+                    acc += Bl[i][j] * float(c[j])
+                out[i] = acc
+        steps = int(doc["test_steps"] if leg["test"] else doc["train_steps"])
+        tlim = float(doc["test_time"] if leg["test"] else doc["train_time"])
+        s0 = np.array(leg["s0"], dtype=float).astype(
+            leg.get("dtype", "float64"))
+
+        def body():
+            ode = run_ode(s0, eq, ctrl, prm, cd, steps, tlim)
+            j = j_from_ode(ode, sd, use, gamma)
+            t = t_from_ode(ode)
+            d = diff_from_ode(ode, sd)
+            return (np.array(ode), float(j), float(t),
+                    np.array(d[0]), np.array(d[1]))
+        return body
+    legs = doc["legs"][:2]
+    alone, points = [], []
+    for leg, picks in zip(legs, doc["threads"]["picks"]):
+        out, table = pre.profile(body_for(leg))
+        alone.append(out)
+        points.append(core.Preempt.pick_points(table, picks))
+        res["ops"] += 1
+    got, switches = pre.run([body_for(leg) for leg in legs], points)
+    core.bump(res["faults"], "caller_threads_interleaved")
+    if switches >= 2:
+        core.bump(res["probes"], "thread_switches>=2")
+    res["events"].append(["threads", switches, [
+        core.digest([fhex(v) for v in a[0].ravel()])[:16] for a in alone]])
+
+    def same(a, b) -> bool:
+        if isinstance(a, float):
+            return a == b or (a != a and b != b)
+        return a.shape == b.shape and bool(np.array_equal(a, b,
+                                                          equal_nan=True))
+    for i, (a, g) in enumerate(zip(alone, got)):
+        if isinstance(g, BaseException):
+            core.violation(res, "run_ode-raised",
+                           f"thread {i}: {type(g).__name__}: {g}")
+            break
+        bad = [nm for nm, u, v in zip(("rows", "J", "T", "state+control",
+                                        "differentials"), a, g)
+               if not same(u, v)]
+        if bad:
+            core.violation(
+                res, "concurrent-simulation-differs-from-sequential",
+                f"thread {i}: {bad} differ from what the same simulation "
+                f"gives alone ({switches} switches to the other thread); "
+                f"J alone {a[1]!r}, together {g[1]!r}")
+            break
+    res["sim_time"] = float(sum(float(a[2]) for a in alone))
+    res["nontrivial"] = switches >= 1
+    return res
+
+
 def execute(doc: dict) -> dict:
+    if doc.get("threads"):
+        return _execute_threads(doc)
     import warnings
 
     import numpy as np
@@ -714,6 +821,14 @@ def _describe(doc, res, sd, cd, controller, equations, params, test_starts,
 # ------------------------------------------------------------------ shrinking
 
 def reductions(doc: dict):
+    if doc.get("threads"):
+        pk = doc["threads"]["picks"]
+        for i in range(len(pk)):
+            for cand in core.list_deletions(pk[i], 0):
+                p2 = [list(q) for q in pk]
+                p2[i] = cand
+                yield {**doc, "threads": {"picks": p2}}
+        return
     if len(doc["legs"]) > 1:
         for cand in core.list_deletions(doc["legs"], 1):
             yield {**doc, "legs": cand}
